@@ -247,8 +247,12 @@ func (u *Unit) finish() {
 	if len(u.rndArgs) > 0 {
 		extra = append(extra, u.rfAxioms(u.rndHints)...)
 	}
+	if inv := u.modelInvariants(nil); !isTrue(inv) {
+		u.defs = append(u.defs, inv)
+	}
 	for _, o := range u.obls {
 		if o.Cover {
+			o.Assume = append(append([]*Term{}, u.defs...), o.Assume...)
 			// satisfiability of quantified formulas is out of reach: the vacuity
 			// check keeps the quantifier-free part of the precondition only
 			var qf []*Term
